@@ -666,6 +666,24 @@ func ruleNONINT(c *Ctx, r *Report) {
 		}
 	}
 	r.ok(rule, "serialiser|conditions-examined", c.pos(dr.SerParam.Pos()), fmt.Sprintf("%d branch conditions examined", n))
+	// data dependence: the SQL text of a value leaf is the constant `?`
+	rows, _ := c.successSkeletons(dr.SerParam)
+	for _, row := range rows {
+		typ := "default"
+		for _, a := range row.P.Atoms {
+			if a.Kind == "type" && a.Pos && a.Subj == "$1" {
+				typ = a.Val
+			}
+		}
+		if typ == "*expr.Expression" || typ == "[]*expr.Expression" || typ == "*expr.RangeBoundary" || typ == "expr.Column" || hasAtom(row.P.Atoms, "$1==nil") {
+			continue
+		}
+		v := "$1"
+		if typ != "default" {
+			v = "$1.(" + typ + ")"
+		}
+		c.checkParamCase(r, rule, "serialiser|value-leaf|"+typ, row, v)
+	}
 }
 
 // splitIndexKey splits "base[idx]" at the bracket matching the final "]".
